@@ -90,7 +90,7 @@ def work(arg):
 
 
 def families(tier):
-    cfgs = [{}, {"skipws": False}, {"ws": " "}]
+    cfgs = [{}, {"skipws": False}, {"ws": " "}, {"skipws": False, "ws": " "}]  # the last: skipping off globally with a custom set, re-enabled by [skipws] rules
     for label, g in gramgen.frules(tier):
         yield label, g, cfgs
     # whitespace sets of several characters including carriage return; insertions then include '\r' and '\r\n'
